@@ -125,14 +125,70 @@ def rand_state(ops, w, allobj, dens=3):
     return (frozenset(facts), fl)
 
 
+def numeric_constants(act):
+    """values of the numeric literals and of the constant sub-expressions of an action (thresholds worth sampling)"""
+    out = set()
+
+    def ex(e):
+        if isinstance(e, (int, float)):
+            out.add(float(e))
+            return float(e)
+        if e[0] == "fn":
+            return None
+        x, y = ex(e[1]), ex(e[2])
+        if x is not None and y is not None:
+            try:
+                v = {"+": x + y, "-": x - y, "*": x * y, "/": x / y}[e[0]]
+            except ZeroDivisionError:
+                return None
+            out.add(v)
+            return v
+        return None
+
+    def fo(f):
+        k = f[0]
+        if k in ("and", "or"):
+            for x in f[1]:
+                fo(x)
+        elif k == "cmp":
+            ex(f[2])
+            ex(f[3])
+        elif k == "forall":
+            fo(f[3])
+
+    def ef(e):
+        if e[0] == "num":
+            ex(e[3])
+        elif e[0] == "when":
+            fo(e[1])
+            for x in e[2]:
+                ef(x)
+        elif e[0] == "forall":
+            ef(e[3])
+
+    fo(act["pre"])
+    for e in act["eff"]:
+        ef(e)
+    return out
+
+
 def behaviour_equal(ctx, ops, w1, w2, aname, samples=24):
     """-> None if equal on all samples else a description"""
     a1, a2 = w1["actions"][aname], w2["actions"][aname]
     objs = universe(ops, w1)
     allobj = {**objs, **w1["constants"]}
     checked = 0
-    for _ in range(samples):
+    thresholds = sorted(numeric_constants(a1) | numeric_constants(a2))
+    for i in range(samples):
         S = rand_state(ops, w1, allobj)
+        if thresholds and i % 2:
+            # fluent values placed on and just around the constants of either version (a threshold that moved by a
+            # rounding error is only visible there)
+            fl = dict(S[1])
+            for k in fl:
+                if ops.chance(1, 2):
+                    fl[k] = ops.pick(thresholds) + [0.0, 0.004, -0.004, 0.0004, -0.0004, 0.00004, -0.00004][ops.draw(7)]
+            S = (S[0], fl)
         args = []
         ok = True
         for _, ty in a1["params"]:
